@@ -614,4 +614,522 @@ theorem ru_comm {u1 u2 : KV} {d r1 r12 r2 r21 : J}
     obtain ⟨X, _, hs1, hs2⟩ := key p
     rw [hs1, hs2]
 
+
+/-! ### an update whose keys are known never crashes `retain_update` -/
+
+theorem KV.lookup_of_mem_keys (k : String) (kvs : KV) (h : k ∈ kvs.keys) :
+    ∃ v, kvs.lookup k = some v := by
+  cases hl : kvs.lookup k with
+  | some v => exact ⟨v, rfl⟩
+  | none => exact absurd h ((KV.lookup_none_iff k kvs).mp hl)
+
+theorem KV.mem_keys_of_lookup {k : String} {kvs : KV} {v : J} (h : kvs.lookup k = some v) :
+    k ∈ kvs.keys := by
+  by_cases hm : k ∈ kvs.keys
+  · exact hm
+  · rw [(KV.lookup_none_iff k kvs).mpr hm] at h
+    cases h
+
+theorem ru_total : ∀ (ukvs : KV) (d : J), ukvs.wf = true → (ukvs = .nil ∨ d.isObj = true) →
+    Known d (.obj ukvs) → ∃ r, ruKvs d ukvs = .ok r
+  | .nil, d, _, _, _ => ⟨d, by simp [ruKvs]⟩
+  | .cons k v rest, d, hwf, hd, hk => by
+    obtain ⟨hk0, hvwf, hrwf⟩ := KV.wf_cons hwf
+    have hobj : d.isObj = true := by
+      rcases hd with h | h
+      · cases h
+      · exact h
+    cases d with
+    | obj dk =>
+      obtain ⟨dk', hdk', hmem⟩ := hk [] (.cons k v rest) k (get?_nil _) (by simp [KV.keys])
+      rw [get?_nil] at hdk'
+      cases hdk'
+      obtain ⟨dv, hdv⟩ := KV.lookup_of_mem_keys k dk hmem
+      -- the rest of the loop sees a dictionary with the same keys and the same other values
+      have hrest : ∀ x : J, Known (.obj (dk.setKey k x)) (.obj rest) := by
+        intro x p uk k' hu hm'
+        cases p with
+        | nil =>
+          rw [get?_nil] at hu
+          cases hu
+          obtain ⟨dk2, hd2, hmem2⟩ := hk [] (.cons k v rest) k' (get?_nil _) (by simp [KV.keys, hm'])
+          rw [get?_nil] at hd2
+          cases hd2
+          exact ⟨_, get?_nil _, by rw [KV.keys_setKey_of_mem k x dk hmem]; exact hmem2⟩
+        | cons k1 p1 =>
+          have hne : ¬ k = k1 := by
+            intro e
+            subst e
+            simp only [get?] at hu
+            rw [(KV.lookup_none_iff k rest).mpr hk0] at hu
+            cases hu
+          have hu' : get? (k1 :: p1) (.obj (.cons k v rest)) = some (.obj uk) := by
+            simpa [get?, KV.lookup, hne] using hu
+          obtain ⟨dk2, hd2, hmem2⟩ := hk (k1 :: p1) uk k' hu' hm'
+          refine ⟨dk2, ?_, hmem2⟩
+          simpa [get?, KV.lookup_setKey_ne x (Ne.symm hne)] using hd2
+      cases v with
+      | obj vk =>
+        have hkv : Known dv (.obj vk) := by
+          intro p uk k' hu hm'
+          have hu' : get? (k :: p) (.obj (.cons k (.obj vk) rest)) = some (.obj uk) := by
+            simpa [get?, KV.lookup] using hu
+          obtain ⟨dk2, hd2, hmem2⟩ := hk (k :: p) uk k' hu' hm'
+          exact ⟨dk2, by simpa [get?, hdv] using hd2, hmem2⟩
+        have hdvobj : vk = .nil ∨ dv.isObj = true := by
+          cases vk with
+          | nil => exact Or.inl rfl
+          | cons k1 v1 t1 =>
+            obtain ⟨dk2, hd2, _⟩ := hkv [] _ k1 (get?_nil _) (by simp [KV.keys])
+            rw [get?_nil] at hd2
+            cases hd2
+            exact Or.inr rfl
+        obtain ⟨r0, hr0⟩ := ru_total vk dv (by simpa [J.wf] using hvwf) hdvobj hkv
+        obtain ⟨r, hr⟩ := ru_total rest (.obj (dk.setKey k r0)) hrwf (Or.inr rfl) (hrest r0)
+        exact ⟨r, by simp [ruKvs, hdv, hr0, hr]⟩
+      | null =>
+        obtain ⟨r, hr⟩ := ru_total rest (.obj (dk.setKey k .null)) hrwf (Or.inr rfl) (hrest _)
+        exact ⟨r, by simp [ruKvs, hr]⟩
+      | bool b =>
+        obtain ⟨r, hr⟩ := ru_total rest (.obj (dk.setKey k (.bool b))) hrwf (Or.inr rfl) (hrest _)
+        exact ⟨r, by simp [ruKvs, hr]⟩
+      | int i =>
+        obtain ⟨r, hr⟩ := ru_total rest (.obj (dk.setKey k (.int i))) hrwf (Or.inr rfl) (hrest _)
+        exact ⟨r, by simp [ruKvs, hr]⟩
+      | float m e =>
+        obtain ⟨r, hr⟩ := ru_total rest (.obj (dk.setKey k (.float m e))) hrwf (Or.inr rfl) (hrest _)
+        exact ⟨r, by simp [ruKvs, hr]⟩
+      | str s =>
+        obtain ⟨r, hr⟩ := ru_total rest (.obj (dk.setKey k (.str s))) hrwf (Or.inr rfl) (hrest _)
+        exact ⟨r, by simp [ruKvs, hr]⟩
+      | list l =>
+        obtain ⟨r, hr⟩ := ru_total rest (.obj (dk.setKey k (.list l))) hrwf (Or.inr rfl) (hrest _)
+        exact ⟨r, by simp [ruKvs, hr]⟩
+    | _ => simp [J.isObj] at hobj
+
+/-! ### inversion of `check_types` -/
+
+theorem typeOk_obj {d : J} {tk : KV} (h : typeOk d (.obj tk) = true) : ∃ dk, d = .obj dk := by
+  cases d with
+  | obj dk => exact ⟨dk, rfl⟩
+  | _ => simp [typeOk, J.tag, J.isStr] at h
+
+theorem typeOk_leaf {d t : J} (h : typeOk d t = true) (ht : t.isObj = false) :
+    d.isObj = false := by
+  cases d with
+  | obj dk => cases t <;> simp_all [typeOk, J.tag, J.isStr, J.isObj]
+  | _ => rfl
+
+theorem ct_typeOk {om : List String} {d t : J} (h : checkTypes om d t = .ok ()) :
+    typeOk d t = true := by
+  cases t <;> simp only [checkTypes] at h <;> split at h <;> first | assumption | cases h
+
+theorem ct_obj {om : List String} {d : J} {tk : KV} (h : checkTypes om d (.obj tk) = .ok ()) :
+    ∃ dk, d = .obj dk ∧ ctKvs om dk tk = .ok () := by
+  obtain ⟨dk, hd⟩ := typeOk_obj (ct_typeOk h)
+  subst hd
+  refine ⟨dk, rfl, ?_⟩
+  simp only [checkTypes] at h
+  split at h
+  · exact h
+  · cases h
+
+theorem ct_lookup {om : List String} {dk : KV} : ∀ (tk : KV) (k : String) (tv : J),
+    ctKvs om dk tk = .ok () → tk.lookup k = some tv → om.contains k = false →
+    ∃ dv, dk.lookup k = some dv ∧ checkTypes om dv tv = .ok ()
+  | .nil, _, _, _, hl, _ => by simp [KV.lookup] at hl
+  | .cons k0 tv0 rest, k, tv, h, hl, ho => by
+    by_cases hk : k0 = k
+    · subst hk
+      simp only [KV.lookup, if_true] at hl
+      cases hl
+      simp only [ctKvs, ho] at h
+      cases hd : dk.lookup k0 with
+      | none => simp [hd] at h
+      | some dv =>
+        simp only [hd] at h
+        refine ⟨dv, rfl, ?_⟩
+        cases hc : checkTypes om dv tv0 with
+        | ok u => rfl
+        | error e => simp [hc] at h
+    · simp only [KV.lookup, hk, if_false] at hl
+      have hrest : ctKvs om dk rest = .ok () := by
+        simp only [ctKvs] at h
+        split at h
+        · exact h
+        · split at h
+          · cases h
+          · split at h
+            · exact h
+            · cases h
+      exact ct_lookup rest k tv hrest hl ho
+
+/-- the path steps through no omitted key -/
+def omitFree (om : List String) (p : Path) : Prop := ∀ k, k ∈ p → om.contains k = false
+
+/-- whatever the accepted file holds at an omit-free key path has been checked against what the
+defaults hold at the same path -/
+theorem ct_get {om : List String} : ∀ (p : Path) (d t tv : J),
+    checkTypes om d t = .ok () → omitFree om p → get? p t = some tv →
+    ∃ dv, get? p d = some dv ∧ checkTypes om dv tv = .ok ()
+  | [], d, t, tv, h, _, hg => by
+    rw [get?_nil] at hg
+    cases hg
+    exact ⟨d, get?_nil _, h⟩
+  | k :: p, d, t, tv, h, ho, hg => by
+    cases t with
+    | obj tk =>
+      obtain ⟨dk, hd, hct⟩ := ct_obj h
+      subst hd
+      simp only [get?] at hg
+      cases hl : tk.lookup k with
+      | none => simp [hl] at hg
+      | some tv0 =>
+        simp only [hl] at hg
+        obtain ⟨dv0, hdv0, hc0⟩ := ct_lookup tk k tv0 hct hl (ho k (by simp))
+        obtain ⟨dv, hdv, hc⟩ := ct_get p dv0 tv0 tv hc0 (fun k' hk' => ho k' (by simp [hk'])) hg
+        exact ⟨dv, by simp [get?, hdv0, hdv], hc⟩
+    | _ => simp [get?] at hg
+
+theorem ct_list_mem {om : List String} {d0 : J} : ∀ (tl : JL) (x : J),
+    ctList om d0 tl = .ok () → x ∈ tl.toList → checkTypes om d0 x = .ok ()
+  | .nil, _, _, hm => by simp [JL.toList] at hm
+  | .cons t rest, x, h, hm => by
+    simp only [ctList] at h
+    cases hc : checkTypes om d0 t with
+    | error e => simp [hc] at h
+    | ok u =>
+      simp only [hc] at h
+      simp only [JL.toList, List.mem_cons] at hm
+      rcases hm with rfl | hm
+      · exact hc
+      · exact ct_list_mem rest x h hm
+
+
+/-! ### placeholder removal -/
+
+mutual
+/-- no type placeholder anywhere in the value (dictionary values and list elements included) -/
+def noPh : J → Bool
+  | .list l => noPhL l
+  | .obj kvs => noPhK kvs
+  | v => !v.isPh
+def noPhL : JL → Bool
+  | .nil => true
+  | .cons h t => noPh h && noPhL t
+def noPhK : KV → Bool
+  | .nil => true
+  | .cons _ v t => noPh v && noPhK t
+end
+
+mutual
+theorem rpVal_noPh : ∀ v : J, noPh (rpVal v) = true
+  | .list l => by
+    cases l with
+    | nil => simp [rpVal, rpList, noPh, noPhL]
+    | cons x t =>
+      cases t with
+      | nil =>
+        by_cases hx : x.isPh = true
+        · simp [rpVal, hx, noPh, noPhL]
+        · simp [rpVal, hx, noPh, noPhL, rpVal_noPh x]
+      | cons y t' =>
+        have := rpList_noPh (.cons x (.cons y t'))
+        simpa [rpVal, noPh] using this
+  | .obj kvs => by
+    have := rpKvs_noPh kvs
+    simpa [rpVal, noPh] using this
+  | .null => by simp [rpVal, J.isPh, noPh]
+  | .bool b => by simp [rpVal, J.isPh, noPh]
+  | .int i => by simp [rpVal, J.isPh, noPh]
+  | .float m e => by simp [rpVal, J.isPh, noPh]
+  | .str s => by
+    simp only [rpVal]
+    split <;> simp_all [noPh, J.isPh]
+theorem rpList_noPh : ∀ l : JL, noPhL (rpList l) = true
+  | .nil => by simp [rpList, noPhL]
+  | .cons x t => by simp [rpList, noPhL, rpVal_noPh x, rpList_noPh t]
+theorem rpKvs_noPh : ∀ kvs : KV, noPhK (rpKvs kvs) = true
+  | .nil => by simp [rpKvs, noPhK]
+  | .cons k v t => by simp [rpKvs, noPhK, rpVal_noPh v, rpKvs_noPh t]
+end
+
+mutual
+/-- values without placeholders are left exactly as they are -/
+theorem rpVal_id : ∀ v : J, noPh v = true → rpVal v = v
+  | .list l, h => by
+    cases l with
+    | nil => simp [rpVal, rpList]
+    | cons x t =>
+      cases t with
+      | nil =>
+        simp only [noPh, noPhL, Bool.and_true] at h
+        have hx : x.isPh = false := by
+          cases x <;> simp_all [noPh, J.isPh]
+        simp [rpVal, hx, rpVal_id x h]
+      | cons y t' =>
+        have := rpList_id (.cons x (.cons y t')) (by simpa [noPh] using h)
+        simp [rpVal, this]
+  | .obj kvs, h => by
+    have := rpKvs_id kvs (by simpa [noPh] using h)
+    simp [rpVal, this]
+  | .null, _ => by simp [rpVal, J.isPh]
+  | .bool b, _ => by simp [rpVal, J.isPh]
+  | .int i, _ => by simp [rpVal, J.isPh]
+  | .float m e, _ => by simp [rpVal, J.isPh]
+  | .str s, h => by
+    have hs : (J.str s).isPh = false := by simpa [noPh] using h
+    simp [rpVal, hs]
+theorem rpList_id : ∀ l : JL, noPhL l = true → rpList l = l
+  | .nil, _ => by simp [rpList]
+  | .cons x t, h => by
+    simp only [noPhL, Bool.and_eq_true] at h
+    simp [rpList, rpVal_id x h.1, rpList_id t h.2]
+theorem rpKvs_id : ∀ kvs : KV, noPhK kvs = true → rpKvs kvs = kvs
+  | .nil, _ => by simp [rpKvs]
+  | .cons k v t, h => by
+    simp only [noPhK, Bool.and_eq_true] at h
+    simp [rpKvs, rpVal_id v h.1, rpKvs_id t h.2]
+end
+
+theorem rpKvs_keys : ∀ kvs : KV, (rpKvs kvs).keys = kvs.keys
+  | .nil => by simp [rpKvs, KV.keys]
+  | .cons k v t => by simp [rpKvs, KV.keys, rpKvs_keys t]
+
+theorem rpKvs_lookup (k : String) : ∀ kvs : KV, (rpKvs kvs).lookup k = (kvs.lookup k).map rpVal
+  | .nil => by simp [rpKvs, KV.lookup]
+  | .cons k' v t => by
+    by_cases h : k' = k
+    · simp [rpKvs, KV.lookup, h]
+    · simp [rpKvs, KV.lookup, h, rpKvs_lookup k t]
+
+/-! ### names -/
+
+theorem labelsOk_mem : ∀ (ls : List J) (s : String),
+    labelsOk ls = .ok () → J.str s ∈ ls → isReserved s = false
+  | [], _, _, hm => by simp at hm
+  | l :: ls, s, h, hm => by
+    cases l with
+    | str s0 =>
+      simp only [labelsOk] at h
+      by_cases hr : isReserved s0 = true
+      · simp [hr] at h
+      · simp only [hr] at h
+        simp only [List.mem_cons, J.str.injEq] at hm
+        rcases hm with rfl | hm
+        · simpa using hr
+        · exact labelsOk_mem ls s h hm
+    | _ => simp [labelsOk] at h
+
+theorem namesOk_lookup : ∀ (progs : KV) (name : String) (prog : J),
+    namesOk progs = .ok () → progs.lookup name = some prog →
+    isReserved name = false ∧
+    ∃ pk v ls, prog = .obj pk ∧ pk.lookup "method_labels" = some v ∧ iterLabels v = .ok ls ∧
+      ∀ s, J.str s ∈ ls → isReserved s = false
+  | .nil, _, _, _, hl => by simp [KV.lookup] at hl
+  | .cons n0 p0 t, name, prog, h, hl => by
+    simp only [namesOk] at h
+    by_cases hr : isReserved n0 = true
+    · simp [hr] at h
+    · simp only [hr] at h
+      cases p0 with
+      | obj pk =>
+        simp only at h
+        cases hml : pk.lookup "method_labels" with
+        | none => simp [hml] at h
+        | some v =>
+          simp only [hml] at h
+          cases hit : iterLabels v with
+          | error e => simp [hit] at h
+          | ok ls =>
+            simp only [hit] at h
+            cases hlo : labelsOk ls with
+            | error e => simp [hlo] at h
+            | ok u =>
+              simp only [hlo] at h
+              by_cases hk : n0 = name
+              · subst hk
+                simp only [KV.lookup, if_true] at hl
+                cases hl
+                exact ⟨by simpa using hr, pk, v, ls, rfl, hml, hit,
+                  fun s hs => labelsOk_mem ls s hlo hs⟩
+              · simp only [KV.lookup, hk, if_false] at hl
+                exact namesOk_lookup t name prog h hl
+      | _ => simp at h
+
+/-! ### the install stage -/
+
+theorem installLabels_only_missing : ∀ (pool : KV) (ls : List J) (acc : KV) (e : Rej),
+    installLabels pool ls acc = .error e → e = .missing_method
+  | _, [], _, _, h => by simp [installLabels] at h
+  | pool, l :: ls, acc, e, h => by
+    simp only [installLabels] at h
+    split at h
+    · split at h
+      · exact installLabels_only_missing pool ls _ e h
+      · cases h; rfl
+    · cases h; rfl
+
+theorem installLabels_inv : ∀ (pool : KV) (ls : List J) (acc ms : KV),
+    installLabels pool ls acc = .ok ms →
+    (∀ key m, acc.lookup key = some m → pool.lookup key = some m) →
+    (∀ key m, ms.lookup key = some m → pool.lookup key = some m) ∧
+    (∀ key, key ∈ acc.keys → key ∈ ms.keys) ∧
+    (∀ l, l ∈ ls → ∃ key, keyOf l = some key ∧ key ∈ ms.keys)
+  | _, [], acc, ms, h, hinv => by
+    simp only [installLabels] at h
+    cases h
+    exact ⟨hinv, fun _ hk => hk, by simp⟩
+  | pool, l :: ls, acc, ms, h, hinv => by
+    simp only [installLabels] at h
+    cases hko : keyOf l with
+    | none => simp [hko] at h
+    | some key =>
+      simp only [hko] at h
+      cases hp : pool.lookup key with
+      | none => simp [hp] at h
+      | some m =>
+        simp only [hp] at h
+        have hinv' : ∀ key' m', (acc.setKey key m).lookup key' = some m' →
+            pool.lookup key' = some m' := by
+          intro key' m' hl
+          by_cases hk : key' = key
+          · subst hk
+            rw [KV.lookup_setKey_same] at hl
+            cases hl; exact hp
+          · rw [KV.lookup_setKey_ne m hk] at hl
+            exact hinv key' m' hl
+        obtain ⟨i1, i2, i3⟩ := installLabels_inv pool ls _ ms h hinv'
+        have hkey : key ∈ ms.keys :=
+          i2 key (KV.mem_keys_of_lookup (KV.lookup_setKey_same key m acc))
+        refine ⟨i1, ?_, ?_⟩
+        · intro k hk
+          apply i2
+          by_cases hm : key ∈ acc.keys
+          · rw [KV.keys_setKey_of_mem key m acc hm]; exact hk
+          · rw [KV.keys_setKey_of_not_mem key m acc hm]; simp [hk]
+        · intro l' hl'
+          simp only [List.mem_cons] at hl'
+          rcases hl' with rfl | hl'
+          · exact ⟨key, hko, hkey⟩
+          · exact i3 l' hl'
+
+theorem installLabels_missing : ∀ (pool : KV) (ls : List J) (acc : KV),
+    (∃ l, l ∈ ls ∧ ∀ key, keyOf l = some key → pool.lookup key = none) →
+    installLabels pool ls acc = .error .missing_method
+  | _, [], _, h => by
+    obtain ⟨l, hl, _⟩ := h
+    simp at hl
+  | pool, l :: ls, acc, h => by
+    simp only [installLabels]
+    cases hko : keyOf l with
+    | none => rfl
+    | some key =>
+      cases hp : pool.lookup key with
+      | none => simp [hp]
+      | some m =>
+        simp only [hp]
+        apply installLabels_missing pool ls
+        obtain ⟨l', hl', hmiss⟩ := h
+        simp only [List.mem_cons] at hl'
+        rcases hl' with rfl | hl'
+        · rw [hmiss key hko] at hp
+          cases hp
+        · exact ⟨l', hl', hmiss⟩
+
+
+theorem installMethods_lookup (defs : KV) : ∀ (ms ms' : KV) (k : String) (m : J),
+    installMethods defs ms = .ok ms' → ms.lookup k = some m →
+    ∃ rm, installMethod defs m = .ok rm ∧ ms'.lookup k = some rm
+  | .nil, _, _, _, _, hl => by simp [KV.lookup] at hl
+  | .cons k0 m0 t, ms', k, m, h, hl => by
+    simp only [installMethods] at h
+    cases hm : installMethod defs m0 with
+    | error e => simp [hm] at h
+    | ok r0 =>
+      simp only [hm] at h
+      cases ht : installMethods defs t with
+      | error e => simp [ht] at h
+      | ok t' =>
+        simp only [ht] at h
+        cases h
+        by_cases hk : k0 = k
+        · subst hk
+          simp only [KV.lookup, if_true] at hl
+          cases hl
+          exact ⟨r0, hm, by simp [KV.lookup]⟩
+        · simp only [KV.lookup, hk, if_false] at hl
+          obtain ⟨rm, h1, h2⟩ := installMethods_lookup defs t t' k m ht hl
+          exact ⟨rm, h1, by simp [KV.lookup, hk, h2]⟩
+
+theorem installMethods_keys (defs : KV) : ∀ (ms ms' : KV),
+    installMethods defs ms = .ok ms' → ms'.keys = ms.keys
+  | .nil, ms', h => by
+    simp only [installMethods] at h
+    cases h; rfl
+  | .cons k0 m0 t, ms', h => by
+    simp only [installMethods] at h
+    cases hm : installMethod defs m0 with
+    | error e => simp [hm] at h
+    | ok r0 =>
+      simp only [hm] at h
+      cases ht : installMethods defs t with
+      | error e => simp [ht] at h
+      | ok t' =>
+        simp only [ht] at h
+        cases h
+        simp [KV.keys, installMethods_keys defs t t' ht]
+
+/-! ### bridges between the checked and the path-wise hypotheses -/
+
+theorem touched_of_leaf_at : ∀ (p : Path) (u v : J),
+    get? p u = some v → v.isObj = false → touched u p = true
+  | [], u, v, hg, hv => by
+    rw [get?_nil] at hg
+    cases hg
+    exact touched_leaf hv []
+  | k :: p, u, v, hg, hv => by
+    cases u with
+    | obj kvs =>
+      simp only [get?] at hg
+      cases hl : kvs.lookup k with
+      | none => simp [hl] at hg
+      | some v0 =>
+        simp only [hl] at hg
+        simp [touched, hl, touched_of_leaf_at p v0 v hg hv]
+    | _ => simp [touched]
+
+theorem omitFree_nil (p : Path) : omitFree [] p := by
+  intro k _
+  simp
+
+/-- a file accepted without omit keys uses known keys only and puts leaves on leaves -/
+theorem known_of_check {d u : J} (h : checkTypes [] d u = .ok ()) :
+    Known d u ∧ LeafOnLeaf d u := by
+  constructor
+  · intro p uk k hu hm
+    obtain ⟨dv, hdv, hc⟩ := ct_get p d u _ h (omitFree_nil p) hu
+    obtain ⟨dk, hd, hct⟩ := ct_obj hc
+    subst hd
+    obtain ⟨tv, htv⟩ := KV.lookup_of_mem_keys k uk hm
+    obtain ⟨dv2, hdv2, _⟩ := ct_lookup uk k tv hct htv (by simp)
+    exact ⟨dk, hdv, KV.mem_keys_of_lookup hdv2⟩
+  · intro p v hu hv
+    obtain ⟨dv, hdv, hc⟩ := ct_get p d u _ h (omitFree_nil p) hu
+    exact ⟨dv, hdv, typeOk_leaf (ct_typeOk hc) hv⟩
+
+theorem disjoint_of_keys {u1 u2 : KV} (h : ∀ k, k ∈ u1.keys → k ∉ u2.keys) :
+    DisjointLeaves (.obj u1) (.obj u2) := by
+  intro p ⟨h1, h2⟩
+  cases p with
+  | nil => simp [touched] at h1
+  | cons k p' =>
+    simp only [touched] at h1 h2
+    cases hl1 : u1.lookup k with
+    | none => simp [hl1] at h1
+    | some v1 =>
+      cases hl2 : u2.lookup k with
+      | none => simp [hl2] at h2
+      | some v2 => exact h k (KV.mem_keys_of_lookup hl1) (KV.mem_keys_of_lookup hl2)
+
 end LdarModel.Tree
